@@ -56,10 +56,13 @@ VARIABLES
     amb,         \* ghost: a turn of an exchange stream was POSTed and its response was damaged
     cancelled,   \* ghost: the caller cancelled
     ended,       \* ghost: Next reported a clean end of stream to a caller that had not cancelled
+    why,         \* ghost: how the last network turn of the stream failed ("" = it did not).  Part of
+                 \*        the view, so that edges mode follows EVERY kind of failed turn by every
+                 \*        operation (the implementation might treat the failure paths differently)
     nf,          \* faults injected so far
     hist
 
-vars == <<kind, sc, tok, fin, closed, pend, cur, posted, deliv, amb, cancelled, ended, nf, hist>>
+vars == <<kind, sc, tok, fin, closed, pend, cur, posted, deliv, amb, cancelled, ended, why, nf, hist>>
 
 NoScript == [n |-> 0, term |-> "finish", lim |-> 0, initerr |-> FALSE]
 Values == <<1, 2, 3, 4, 5, 6, 7, 8>>          \* value = position
@@ -210,9 +213,13 @@ Reached(F) == "neterr" \notin F
 Mint(R, F) == IF Reached(F) /\ R.pos >= 0 THEN Append(cur, R.pos) ELSE cur
 NewId(R, E, F) == IF Reached(F) /\ R.pos >= 0 /\ E.pos >= 0 THEN Len(cur) + 1 ELSE 0
 
-Exp(ok, end, v, exc, posts, sent, exit, f) ==
+\* exits of HttpClient.post (nothing was parsed) vs. later ones; producer streams remember only that
+PostExits == {"do_error", "enc_oversize", "read_error", "enc_unsupported", "decode", "http_status"}
+Why(k, x) == IF x = "ok" THEN "" ELSE IF k = "exch" THEN x ELSE IF x \in PostExits THEN "post" ELSE "parse"
+
+Exp(ok, end, v, exc, posts, sent, exit) ==
     [ok |-> ok, end |-> end, v |-> v, md |-> TRUE, exc |-> exc, posts |-> posts, sent |-> sent,
-     dup |-> FALSE, m_exit |-> exit, m_fin |-> f]
+     dup |-> FALSE, m_exit |-> exit]
 
 --------------------------------------------------------------------------
 (* CallUnary: post, parseMain, exactly one data batch.                     *)
@@ -229,9 +236,9 @@ CallUnary(term, decl, F) ==
              IN RecordStep([a |-> "CallUnary",
                     args |-> [term |-> term, decl |-> decl, f |-> F, keep |-> keep],
                     exp |-> Exp(x = "ok", FALSE, IF x = "ok" THEN 1 ELSE 0,
-                                IF x = "exception" THEN "srv" ELSE "none", 1, <<>>, x, FALSE)])
+                                IF x = "exception" THEN "srv" ELSE "none", 1, <<>>, x)])
     /\ nf' = nf + Cardinality(F)
-    /\ UNCHANGED <<tok, fin, closed, pend, cur, posted, deliv, amb, cancelled, ended>>
+    /\ UNCHANGED <<tok, fin, closed, pend, cur, posted, deliv, amb, cancelled, ended, why>>
 
 (* OpenProducer / OpenExchange: post, parse the output stream, trailing     *)
 (* bytes, exchange-only checks, error header; then the stream object.       *)
@@ -253,36 +260,36 @@ Open(k, s, F) ==
              /\ RecordStep([a |-> "Open",
                     args |-> [kind |-> k, sc |-> s, f |-> F, keep |-> keep],
                     exp |-> Exp(x = "ok", FALSE, 0, IF x = "exception" THEN "srv" ELSE "none",
-                                1, <<>>, x, IF x = "ok" THEN id = 0 ELSE FALSE)])
+                                1, <<>>, x)])
     /\ nf' = nf + Cardinality(F)
-    /\ UNCHANGED <<closed, posted, deliv, amb, cancelled, ended>>
+    /\ UNCHANGED <<closed, posted, deliv, amb, cancelled, ended, why>>
 
 (* HttpClientStream.Next                                                    *)
 Next_Closed ==
     /\ Budget /\ kind \in {"prod", "exch"} /\ closed
     /\ RecordStep([a |-> "Next", args |-> [f |-> {}, keep |-> -1],
-                   exp |-> Exp(FALSE, FALSE, 0, "none", 0, <<>>, "local_closed", fin)])
-    /\ UNCHANGED <<kind, sc, tok, fin, closed, pend, cur, posted, deliv, amb, cancelled, ended, nf>>
+                   exp |-> Exp(FALSE, FALSE, 0, "none", 0, <<>>, "local_closed")])
+    /\ UNCHANGED <<kind, sc, tok, fin, closed, pend, cur, posted, deliv, amb, cancelled, ended, why, nf>>
 
 Next_WrongKind ==
     /\ Budget /\ kind = "exch" /\ ~closed
     /\ RecordStep([a |-> "Next", args |-> [f |-> {}, keep |-> -1],
-                   exp |-> Exp(FALSE, FALSE, 0, "none", 0, <<>>, "local_wrongop", fin)])
-    /\ UNCHANGED <<kind, sc, tok, fin, closed, pend, cur, posted, deliv, amb, cancelled, ended, nf>>
+                   exp |-> Exp(FALSE, FALSE, 0, "none", 0, <<>>, "local_wrongop")])
+    /\ UNCHANGED <<kind, sc, tok, fin, closed, pend, cur, posted, deliv, amb, cancelled, ended, why, nf>>
 
 Next_Pending ==
     /\ Budget /\ kind = "prod" /\ ~closed /\ pend # <<>>
     /\ pend' = Tail(pend) /\ deliv' = Append(deliv, Head(pend))
     /\ RecordStep([a |-> "Next", args |-> [f |-> {}, keep |-> -1],
-                   exp |-> Exp(TRUE, FALSE, Head(pend), "none", 0, <<>>, "ok", fin)])
-    /\ UNCHANGED <<kind, sc, tok, fin, closed, cur, posted, amb, cancelled, ended, nf>>
+                   exp |-> Exp(TRUE, FALSE, Head(pend), "none", 0, <<>>, "ok")])
+    /\ UNCHANGED <<kind, sc, tok, fin, closed, cur, posted, amb, cancelled, ended, why, nf>>
 
 Next_Finished ==
     /\ Budget /\ kind = "prod" /\ ~closed /\ pend = <<>> /\ (fin \/ tok = 0)
     /\ fin' = TRUE /\ ended' = (ended \/ ~cancelled)
     /\ RecordStep([a |-> "Next", args |-> [f |-> {}, keep |-> -1],
-                   exp |-> Exp(TRUE, TRUE, 0, "none", 0, <<>>, "ok", TRUE)])
-    /\ UNCHANGED <<kind, sc, tok, closed, pend, cur, posted, deliv, amb, cancelled, nf>>
+                   exp |-> Exp(TRUE, TRUE, 0, "none", 0, <<>>, "ok")])
+    /\ UNCHANGED <<kind, sc, tok, closed, pend, cur, posted, deliv, amb, cancelled, why, nf>>
 
 \* continuation POST: the cursor is KEPT until a response has been parsed completely, so a
 \* failed turn is retried with the same cursor (producer turns are idempotent: the server
@@ -298,22 +305,23 @@ Next_Post(F) ==
               id == NewId(R, E, F)
           IN /\ cur' = Mint(R, F)
              /\ posted' = (IF kind = "exch" THEN Append(posted, tok) ELSE posted)
+             /\ why' = Why("prod", x)
              /\ IF x # "ok"
                 THEN /\ UNCHANGED <<tok, fin, pend, deliv, ended>>
                      /\ RecordStep([a |-> "Next", args |-> [f |-> F, keep |-> keep],
                             exp |-> Exp(FALSE, FALSE, 0, IF x = "exception" THEN "srv" ELSE "none",
-                                        1, <<tok>>, x, fin)])
+                                        1, <<tok>>, x)])
                 ELSE /\ tok' = id /\ fin' = (id = 0)
                      /\ E.data # <<>> \/ id = 0          \* (else the code would POST again)
                      /\ IF E.data # <<>>
                         THEN /\ pend' = Tail(E.data) /\ deliv' = Append(deliv, Head(E.data))
                              /\ UNCHANGED ended
                              /\ RecordStep([a |-> "Next", args |-> [f |-> F, keep |-> keep],
-                                    exp |-> Exp(TRUE, FALSE, Head(E.data), "none", 1, <<tok>>, "ok", id = 0)])
+                                    exp |-> Exp(TRUE, FALSE, Head(E.data), "none", 1, <<tok>>, "ok")])
                         ELSE /\ pend' = <<>> /\ UNCHANGED deliv
                              /\ ended' = (ended \/ ~cancelled)
                              /\ RecordStep([a |-> "Next", args |-> [f |-> F, keep |-> keep],
-                                    exp |-> Exp(TRUE, TRUE, 0, "none", 1, <<tok>>, "ok", TRUE)])
+                                    exp |-> Exp(TRUE, TRUE, 0, "none", 1, <<tok>>, "ok")])
     /\ nf' = nf + Cardinality(F)
     /\ UNCHANGED <<kind, sc, closed, amb, cancelled>>
 
@@ -326,8 +334,8 @@ Exchange_Local(input) ==
                 ELSE IF fin \/ tok = 0 THEN "local_poisoned"
                 ELSE "local_input"
        IN RecordStep([a |-> "Exchange", args |-> [f |-> {}, keep |-> -1, input |-> input],
-                      exp |-> Exp(FALSE, FALSE, 0, "none", 0, <<>>, x, fin)])
-    /\ UNCHANGED <<kind, sc, tok, fin, closed, pend, cur, posted, deliv, amb, cancelled, ended, nf>>
+                      exp |-> Exp(FALSE, FALSE, 0, "none", 0, <<>>, x)])
+    /\ UNCHANGED <<kind, sc, tok, fin, closed, pend, cur, posted, deliv, amb, cancelled, ended, why, nf>>
 
 \* the cursor is CLEARED before the POST; only a completely parsed response with exactly one
 \* data batch and a new cursor re-opens the stream
@@ -346,14 +354,15 @@ Exchange_Post(F) ==
           IN /\ cur' = Mint(R, F)
              /\ posted' = (IF kind = "exch" THEN Append(posted, tok) ELSE posted)
              /\ amb' = (amb \/ F # {})
+             /\ why' = Why("exch", x)
              /\ IF x = "ok"
                 THEN /\ tok' = id /\ fin' = FALSE /\ deliv' = Append(deliv, E.data[1])
                      /\ RecordStep([a |-> "Exchange", args |-> [f |-> F, keep |-> keep, input |-> "ok"],
-                            exp |-> Exp(TRUE, FALSE, E.data[1], "none", 1, <<tok>>, "ok", FALSE)])
+                            exp |-> Exp(TRUE, FALSE, E.data[1], "none", 1, <<tok>>, "ok")])
                 ELSE /\ tok' = 0 /\ fin' = TRUE /\ UNCHANGED deliv
                      /\ RecordStep([a |-> "Exchange", args |-> [f |-> F, keep |-> keep, input |-> "ok"],
                             exp |-> Exp(FALSE, FALSE, 0, IF x = "exception" THEN "srv" ELSE "none",
-                                        1, <<tok>>, x, TRUE)])
+                                        1, <<tok>>, x)])
     /\ nf' = nf + Cardinality(F)
     /\ UNCHANGED <<kind, sc, closed, pend, cancelled, ended>>
 
@@ -362,8 +371,8 @@ Cancel_Local ==
     /\ Budget /\ kind \in {"prod", "exch"} /\ (closed \/ fin \/ tok = 0)
     /\ fin' = TRUE /\ cancelled' = TRUE
     /\ RecordStep([a |-> "Cancel", args |-> [f |-> {}, keep |-> -1],
-                   exp |-> Exp(TRUE, FALSE, 0, "none", 0, <<>>, "ok", TRUE)])
-    /\ UNCHANGED <<kind, sc, tok, closed, pend, cur, posted, deliv, amb, ended, nf>>
+                   exp |-> Exp(TRUE, FALSE, 0, "none", 0, <<>>, "ok")])
+    /\ UNCHANGED <<kind, sc, tok, closed, pend, cur, posted, deliv, amb, ended, why, nf>>
 
 Cancel_Post(F) ==
     /\ Budget /\ kind \in {"prod", "exch"} /\ ~closed /\ ~fin /\ tok # 0
@@ -373,8 +382,9 @@ Cancel_Post(F) ==
           /\ posted' = (IF kind = "exch" THEN Append(posted, tok) ELSE posted)
           /\ amb' = (amb \/ (kind = "exch" /\ F # {}))
           /\ tok' = 0 /\ fin' = TRUE /\ cancelled' = TRUE
+          /\ why' = Why(kind, m)
           /\ RecordStep([a |-> "Cancel", args |-> [f |-> F, keep |-> -1],
-                 exp |-> Exp(m = "ok", FALSE, 0, "none", 1, <<tok>>, m, TRUE)])
+                 exp |-> Exp(m = "ok", FALSE, 0, "none", 1, <<tok>>, m)])
     /\ nf' = nf + Cardinality(F)
     /\ UNCHANGED <<kind, sc, closed, pend, cur, deliv, ended>>
 
@@ -383,8 +393,8 @@ Close ==
     /\ Budget /\ kind \in {"prod", "exch"}
     /\ closed' = TRUE /\ pend' = <<>>
     /\ RecordStep([a |-> "Close", args |-> [f |-> {}, keep |-> -1],
-                   exp |-> Exp(TRUE, FALSE, 0, "none", 0, <<>>, "ok", fin)])
-    /\ UNCHANGED <<kind, sc, tok, fin, cur, posted, deliv, amb, cancelled, ended, nf>>
+                   exp |-> Exp(TRUE, FALSE, 0, "none", 0, <<>>, "ok")])
+    /\ UNCHANGED <<kind, sc, tok, fin, cur, posted, deliv, amb, cancelled, ended, why, nf>>
 
 --------------------------------------------------------------------------
 \* producer: n data batches, then the script finishes or fails; exchange: n good turns, then the
@@ -401,7 +411,7 @@ Init ==
     /\ kind = "none" /\ sc = NoScript
     /\ tok = 0 /\ fin = FALSE /\ closed = FALSE /\ pend = <<>>
     /\ cur = <<>> /\ posted = <<>> /\ deliv = <<>>
-    /\ amb = FALSE /\ cancelled = FALSE /\ ended = FALSE /\ nf = 0
+    /\ amb = FALSE /\ cancelled = FALSE /\ ended = FALSE /\ why = "" /\ nf = 0
     /\ hist = << [a |-> "Init",
                   args |-> [require_eos |-> RequireEOS, exc_first |-> ExcFirst],
                   exp |-> [ok |-> TRUE]] >>
@@ -485,5 +495,5 @@ TypeOK ==
     /\ (closed => pend = <<>>)
     /\ (kind = "exch") => pend = <<>>
 
-View == <<kind, sc, tok, fin, closed, pend, cur, posted, deliv, amb, cancelled, ended>>
+View == <<kind, sc, tok, fin, closed, pend, cur, posted, deliv, amb, cancelled, ended, why>>
 =============================================================================
